@@ -638,4 +638,54 @@ def oaChatRF (ff : Bool) (v : Variant) (stream usage : Bool) : Reply ChatMsg →
   | .stream items => if ff then (200, oaChatStreamFF usage items false) else oaChatR v stream usage (.stream items)
   | .fail s m => oaChatR v stream usage (.fail s m)
 
+/-! ### `llmServer.Completion` (llm/server.go): what reaches the handlers' callback (round 7)
+
+    After the runner answered 200, `Completion` scans the body line by line: empty lines are skipped, an
+    optional `data: ` prefix is dropped, the line is decoded (an undecodable line ends the call with an
+    error), the token-repeat guard (`strings.TrimSpace(content)` equal to the previous one more than 30
+    times in a row) ends the call with `ctx.Err()` — nil while the context is live —, a non-empty
+    `content` is handed to the callback as a content-only chunk, and a line with `done` is handed over
+    WHOLE (its content a second time) and ends the call with nil.  When the body ends: a read error
+    is returned, a clean end returns nil.  JSON decoding and the error texts are inputs. -/
+
+inductive RLine where
+  | blank
+  /-- a line `json.Unmarshal` rejects -/
+  | bad
+  | resp (c : Chunk)
+deriving DecidableEq, Repr
+
+/-- how the body ends: cleanly, or with `scanner.Err() != nil` (connection dropped, line too long) -/
+inductive BodyEnd where
+  | clean
+  | broken
+deriving DecidableEq, Repr
+
+def isSpaceAscii (b : UInt8) : Bool := b == 32 || (9 ≤ b && b ≤ 13)
+
+/-- `strings.TrimSpace` on ASCII text -/
+def trimAscii (s : Bytes) : Bytes :=
+  ((s.dropWhile isSpaceAscii).reverse.dropWhile isSpaceAscii).reverse
+
+/-- the scan loop; `em` = the text of the error returned (whatever it is), `lt`/`n` = `lastToken`/`tokenRepeat` -/
+def completionLoop (em : Bytes) : List RLine → BodyEnd → Bytes → Nat → List Chunk × End
+  | [], .clean, _, _ => ([], .ok)
+  | [], .broken, _, _ => ([], .err em)
+  | .blank :: rest, be, lt, n => completionLoop em rest be lt n
+  | .bad :: _, _, _, _ => ([], .err em)
+  | .resp c :: rest, be, lt, n =>
+    let t := trimAscii c.content
+    let n' := if t == lt then n + 1 else 0
+    if n' > 30 then ([], .ok)
+    else
+      let pre : List Chunk := if c.content.isEmpty then [] else [⟨c.content, false, 0, 0, 0⟩]
+      if c.done then (pre ++ [c], .ok)
+      else
+        let r := completionLoop em rest be t n'
+        (pre ++ r.1, r.2)
+
+/-- `Completion` for a runner reply: a status of 400 or more is an error before anything is scanned -/
+def completionCall (em : Bytes) (httpFail : Bool) (ls : List RLine) (be : BodyEnd) : List Chunk × End :=
+  if httpFail then ([], .err em) else completionLoop em ls be [] 0
+
 end OllamaVerif.Stream
